@@ -167,6 +167,30 @@ fn round_robin(st: &mut St, max_calls: usize) {
           }
           DEAD.with(|d| d.set(None));
         }
+        // call futures that are created and dropped without ever being polled (the losing arm of a
+        // hedged request, `let f = stub.call(..); if cond { f.await }`) are not calls: the calls that
+        // are made stay balanced (seeded change C20l took the turn when the future was created)
+        for period in 1..=3usize {
+            for pat in 0..(1u32 << period) {
+                let log: Log = Rc::new(RefCell::new(vec![]));
+                let rr = RoundRobin::new((0..n).map(|i| Backend { idx: i, log: log.clone() }).collect());
+                for c in 0..(6 * period) {
+                    if pat & (1 << (c % period)) != 0 {
+                        let unpolled = rr.call(ctx, 9_000 + c as u64);
+                        drop(unpolled);
+                    }
+                    let f = rr.call(ctx, c as u64);
+                    futures::pin_mut!(f);
+                    let _ = drive(f, 10);
+                    if let Err(e) = balanced(&log.borrow(), n) {
+                        st.failures.push(("C20-rr-unbalanced".into(), format!("n={n}, call futures created and dropped unpolled before calls {pat:#b} (period {period}): {e}")));
+                        break;
+                    }
+                }
+                st.evals += 1;
+                st.distinct.insert(h(&("rr-unpolled", n, period, pat)));
+            }
+        }
         // two (three) independent round-robin stubs in one process, called in every short periodic
         // interleaving: each spreads ITS calls evenly, whatever the others are doing (seeded change
         // C20k drew the turns of every stub from one process-wide counter)
